@@ -222,9 +222,24 @@ def env_slot(env, kind):
     return names[0] if len(names) == 1 else None
 
 
+def env_rng_slots(env):
+    """names of all instance attributes holding a generator (an environment may keep separate streams)"""
+    import numpy as _np
+    return sorted(k for k, v in vars(env).items() if isinstance(v, _np.random.Generator) or type(v).__name__ == 'ScriptedRng')
+
+
 def env_rng(env):
-    name = env_slot(env, 'rng')
-    return getattr(env, name) if name else None
+    """the environment's generator (the first one if it keeps several)"""
+    names = env_rng_slots(env)
+    return getattr(env, names[0]) if names else None
+
+
+def env_rng_state_repr(env):
+    """printable state of every generator the environment holds (None if it holds none)"""
+    names = env_rng_slots(env)
+    if not names:
+        return None
+    return repr([(n, getattr(env, n).bit_generator.state) for n in names if hasattr(getattr(env, n), 'bit_generator')])
 
 
 def stateful_slots(env):
